@@ -377,6 +377,17 @@ impl Check for C08 {
         "C08"
     }
 
+    fn declared_probes(&self) -> Vec<&'static str> {
+        vec![
+            "fault.adversarial-stream-words",
+            "probe.large-matrix",
+            "probe.more-than-one-possible-winner",
+            "probe.order-sensitive-matrix",
+            "probe.single-individual",
+            "probe.zero-cases",
+        ]
+    }
+
     fn rule(&self) -> String {
         "(1) distribution experiments: seeded result matrices (population 1-6, 0-4 cases, values 0..=2 so ties are the norm, scores and \
          errors, configured case count <= available; at least half generated to be order-sensitive), N seeded selections each; every \
